@@ -391,6 +391,21 @@ static void num_one(const uint8_t *s, size_t n) {
         if (run > 0 && ext != want_ext && r >= 0) viol("num_chunk_ext", "htp_parse_chunked_length(\"%s\") extension flag %d, expected %d", (char *) e.p, ext, want_ext);
         free(cp);
     }
+    /* port (the statement lists it with the numeric parsers): "h:" + text through htp_parse_hostport(); the number is the decimal value of
+     * LWS digits LWS when it is in 1..65535, otherwise -1 and the invalid indicator (a value that does not fit must not wrap into the range) */
+    {
+        static hx_buf hp; hb_reset(&hp); hb_puts(&hp, "h:"); hb_put(&hp, s, n);
+        bstr *b = bstr_dup_mem(hp.p, hp.n), *hn = NULL, *pt = NULL; int pn = -1, inv = 0;
+        htp_status_t rc = htp_parse_hostport(b, &hn, &pt, &pn, &inv);
+        size_t a = 0, bb = n; while (a < bb && is_lws(s[a])) a++; while (bb > a && is_lws(s[bb - 1])) bb--;
+        run = lead_run(s + a, bb - a, 10, &v, &over);
+        int want = (bb - a > 0 && run == bb - a && !over && v >= 1 && v <= 65535) ? (int) v : -1;
+        if (rc == HTP_OK) {
+            if (pn != want) viol("num_port", "htp_parse_hostport(\"h:%s\") port_number = %d, expected %d", (char *) e.p, pn, want);
+            else if (want < 0 && !inv) viol("num_port_invalid", "htp_parse_hostport(\"h:%s\"): the port is not a number in 1..65535 but the invalid indicator is not set", (char *) e.p);
+        }
+        bstr_free(hn); bstr_free(pt); bstr_free(b);
+    }
     /* status: LWS digits LWS, 100..999 */
     {
         bstr *b = bstr_dup_mem(s, n); int r = htp_parse_status(b);
@@ -422,7 +437,7 @@ static void part_numbers(int maxlen) {
     if (hx_shard_i == 0) {
         static const char *const LIT[] = { "2147483646", "2147483647", "2147483648", "2147483649", "4294967294", "4294967295", "4294967296", "4294967297",
             "9223372036854775806", "9223372036854775807", "9223372036854775808", "9223372036854775809", "18446744073709551614", "18446744073709551615", "18446744073709551616",
-            "10000000000000000000", "99999999999999999999", "7ffffffe", "7fffffff", "80000000", "80000001", "fffffffe", "ffffffff", "100000000", "7ffffffffffffffe", "7fffffffffffffff",
+            "10000000000000000000", "99999999999999999999", "4294967376", "8589934672", "4295032831", "4294967295", "18446744073709551696", "18446744073709617151", "36893488147419103312", "7ffffffe", "7fffffff", "80000000", "80000001", "fffffffe", "ffffffff", "100000000", "7ffffffffffffffe", "7fffffffffffffff",
             "8000000000000000", "ffffffffffffffff", "10000000000000000", "65535", "65536", "999", "1000", "99", "100" };
         static const char *const PRE[] = { "", "0", "000", " ", "\t " }, *const POST[] = { "", " ", "x", ";a", " 1" };
         for (size_t i = 0; i < sizeof LIT / sizeof LIT[0]; i++) for (int p = 0; p < 5; p++) for (int q = 0; q < 5; q++) {
